@@ -107,6 +107,26 @@ class Obj(AV):
         return hash(("obj", self.tname, tuple(sorted((k, hash(v)) for k, v in self.fields.items()))))
 
 
+class NN(AV):
+    """A value that is certainly not None but otherwise unknown: a str / bytes / container / callable / class object.
+    `func` carries the repo function for callables that could be resolved (bound methods, lambdas, nested defs)."""
+
+    __slots__ = ("kind", "func")
+
+    def __init__(self, kind: str, func: Any = None) -> None:
+        self.kind = kind
+        self.func = func
+
+    def __repr__(self) -> str:
+        return f"nn<{self.kind}>" if self.func is None else f"nn<{self.kind}:{self.func.qual}>"
+
+    def __eq__(self, o: object) -> bool:
+        return isinstance(o, NN) and self.kind == o.kind and self.func is o.func
+
+    def __hash__(self) -> int:
+        return hash(("nn", self.kind, id(self.func)))
+
+
 class Tup(AV):
     __slots__ = ("items",)
 
@@ -252,6 +272,10 @@ def join(a: AV, b: AV) -> AV:
         return Obj(a.tname, f)
     if isinstance(a, Tup) and isinstance(b, Tup) and len(a.items) == len(b.items):
         return Tup(join(x, y) for x, y in zip(a.items, b.items))
+    if isinstance(a, NN) and isinstance(b, NN):
+        return NN(a.kind if a.kind == b.kind else "object")
+    if isinstance(a, NN) and isinstance(b, ConstV) and not isinstance(b.v, float) or isinstance(b, NN) and isinstance(a, ConstV) and not isinstance(a.v, float):
+        return NN("str" if (a.kind if isinstance(a, NN) else b.kind) == "str" else "object")  # type: ignore[union-attr]
     return TOP
 
 
@@ -500,6 +524,8 @@ class Interp:
         self.entry_label = ""
         self.steps = 0
         self._inline_stack: list[int] = []
+        self._inline_names: list[str] = []
+        self.raise_paths: dict[tuple[str, str], tuple[str, ...]] = {}
         self.on_call: Callable[[ast.Call, Func, dict[str, AV], State, Func], None] | None = None
         self.on_store: Callable[[ast.Attribute, ast.stmt, AV, State, Func], None] | None = None
         self.on_return: Callable[[ast.Return, AV, State, Func], None] | None = None
@@ -510,6 +536,7 @@ class Interp:
         self.escaped: list[str] = []  # uses of atoms outside the order fragment
         self.stubs: dict[str, Callable[[list[AV], dict[str, AV], AV | None], AV]] = {}  # qualname -> abstract summary
         self.raise_log: list[tuple[str, str]] = []
+        self.opaque_log: list[tuple[str, str]] = []
         self.on_binop: Callable[[ast.BinOp, AV, AV, State, Func], None] | None = None
         self.on_builtin: Callable[[ast.Call, list[AV], State, Func], None] | None = None
 
@@ -683,6 +710,14 @@ class Interp:
             return TOPINT
         if t == "None":
             return NONE
+        if t in ("str", "bytes", "bytearray"):
+            return NN(t)
+        if isinstance(t, tuple) and t and t[0] in ("func", "bound") and len(t) > 1 and isinstance(t[1], Func):
+            return NN("callable", t[1])
+        if isinstance(t, tuple) and t and t[0] in ("list", "dict", "set", "callable"):
+            return NN(t[0])
+        if isinstance(t, tuple) and t and t[0] == "type":
+            return NN("type")
         if isinstance(t, str) and self.M.cls(t, required=False) is not None:
             c = self.M.cls(t, required=False)
             if c is not None and (self.M.is_subclass(c, "IntEnum") or self.M.is_subclass(c, "IntFlag")):
@@ -1024,6 +1059,8 @@ class Interp:
         short = fname.split(".")[-1]
         args = [self.ev(a, st, fn, depth) for a in c.args if not isinstance(a, ast.Starred)]
         kws = {k.arg: self.ev(k.value, st, fn, depth) for k in c.keywords if k.arg}
+        if fname in ("functools.partial", "partial"):
+            return [(NN("callable"), st)]
         # modelled helpers
         if short == "_towards_zero_division" and len(args) == 2:
             return [(iv_tzdiv(num(args[0]), num(args[1])), st)]
@@ -1263,6 +1300,7 @@ class Interp:
                arg_exprs: list[ast.expr], kw_exprs: dict[str, ast.expr], want_self: bool = False, recv_key: str | None = None) -> list[tuple[AV, State]] | None:
         """Inline f in the caller's context. Returns None if not inlined (too deep / opaque / recursive / too big)."""
         if depth >= self.max_depth or f.qual in self.C.opaque or id(f) in self._inline_stack or isinstance(f.node, ast.Lambda) and False:
+            self.opaque_log.append((f.qual, "depth" if depth >= self.max_depth else "recursive" if id(f) in self._inline_stack else "opaque"))
             return None
         if not isinstance(f.node, ast.Lambda):
             size = getattr(f.node, "_size", None)
@@ -1270,6 +1308,7 @@ class Interp:
                 size = sum(1 for _ in ast.walk(f.node))
                 f.node._size = size  # type: ignore[attr-defined]
             if size > self.max_nodes:
+                self.opaque_log.append((f.qual, "size"))
                 return None
             if any(isinstance(n, (ast.Yield, ast.YieldFrom)) for n in own_nodes(f.node)):
                 return None
@@ -1314,12 +1353,15 @@ class Interp:
             elif f.cls is not None and not self.M.is_subclass(f.cls, "type"):
                 init[sn] = Obj(f.cls.name)
         self._inline_stack.append(id(f))
+        self._inline_names.append(f.qual)
         try:
             rets, falls = self.run_function(f, State(init), depth + 1)
         except Budget:
+            self.opaque_log.append((f.qual, "budget"))
             return None
         finally:
             self._inline_stack.pop()
+            self._inline_names.pop()
         outs: list[tuple[AV, State]] = []
         for v, fin in rets + [(NONE, s) for s in falls]:
             s2 = st
@@ -1417,6 +1459,20 @@ class Interp:
             return self._truthy(c.target, v, st2, fn, truth)
         if isinstance(c, ast.Constant):
             return [st] if bool(c.value) == truth else []
+        if isinstance(c, ast.Call) and unparse(c.func) == "callable" and len(c.args) == 1:
+            v0 = self.ev(c.args[0], st, fn, depth)
+            resc: bool | None = None
+            if isinstance(v0, NN) and v0.kind == "callable":
+                resc = True
+            elif isinstance(v0, (NoneV, Iv, ConstV, Tup)) or isinstance(v0, NN) and v0.kind in ("str", "bytes", "list", "dict", "set"):
+                resc = False
+            elif isinstance(v0, Obj):
+                cc = self.M.cls(v0.tname, required=False)
+                if cc is not None and self.M.find_method(cc, "__call__") is None:
+                    resc = False
+            if resc is None:
+                return [st]
+            return [st] if resc == truth else []
         if isinstance(c, ast.Call) and unparse(c.func) == "isinstance" and len(c.args) == 2:
             v0 = self.ev(c.args[0], st, fn, depth)
             res0 = self._isinstance(v0, c.args[1])
@@ -1448,6 +1504,20 @@ class Interp:
             return None
         if isinstance(v, NoneV):
             return False
+        if isinstance(v, NN):
+            if v.kind in ("str", "bytes", "bytearray", "list", "dict", "set"):
+                if v.kind in names:
+                    return True
+                if all(n in ("int", "float", "str", "bool", "bytes", "list", "dict", "set", "tuple") or self.M.cls(n, required=False) is not None for n in names):
+                    return False
+            if v.kind == "callable" and all(self.M.cls(n, required=False) is not None for n in names):
+                return False  # functions are not instances of repository classes
+            return None
+        if isinstance(v, ConstV) and isinstance(v.v, str):
+            if "str" in names:
+                return True
+            if all(n in ("int", "float", "bool", "bytes") or self.M.cls(n, required=False) is not None for n in names):
+                return False
         if isinstance(v, Iv) and v.prec and v.const and float(v.lo).is_integer():
             if "int" in names:
                 return True
@@ -1466,7 +1536,14 @@ class Interp:
                 return [st.refine(k, Iv(0, 0))]
             return [st]
         if isinstance(v, Obj):
+            c = self.M.cls(v.tname, required=False)
+            if c is not None and self.M.find_method(c, "__bool__") is None and self.M.find_method(c, "__len__") is None and not {b for b in self.M._ext_bases(c) if self.M.cls(b, required=False) is None} - {"object", "ABC", "Generic", "Protocol"}:
+                return [st] if truth else []  # plain objects are always truthy
             return [st]  # objects may define __bool__/__len__; do not decide
+        if isinstance(v, NN) and v.kind in ("callable", "type"):
+            return [st] if truth else []
+        if isinstance(v, ConstV) and isinstance(v.v, (str, bytes)) and v.v not in ("<str>",):
+            return [st] if bool(v.v) == truth else []
         return [st]
 
     def cmp(self, l: ast.expr, op: ast.cmpop, r: ast.expr, st: State, fn: Func, truth: bool, depth: int) -> list[State]:
@@ -1534,7 +1611,7 @@ class Interp:
                     k = self.key_of(ex, fn) if isinstance(ex, (ast.Name, ast.Attribute)) else None
                     if isinstance(x, NoneV):
                         return [st] if t is ast.Is else []
-                    if isinstance(x, (Iv, Obj, Tup, ConstV)):
+                    if isinstance(x, (Iv, Obj, Tup, ConstV, NN)):
                         return [] if t is ast.Is else [st]
                     if k is not None and t is ast.Is:
                         return [st.refine(k, NONE)]
@@ -1542,9 +1619,9 @@ class Interp:
             return [st]
         if isinstance(a, NoneV) or isinstance(b, NoneV):
             if t is ast.Eq:
-                return [st] if isinstance(a, NoneV) and isinstance(b, NoneV) else ([] if isinstance(a, (Iv, Obj)) or isinstance(b, (Iv, Obj)) else [st])
+                return [st] if isinstance(a, NoneV) and isinstance(b, NoneV) else ([] if isinstance(a, (Iv, Obj, NN)) or isinstance(b, (Iv, Obj, NN)) else [st])
             return [st]
-        if isinstance(a, Obj) or isinstance(b, Obj):
+        if isinstance(a, Obj) or isinstance(b, Obj) or isinstance(a, NN) or isinstance(b, NN):
             return [st]
         if isinstance(a, ConstV) and not isinstance(a.v, float) or isinstance(b, ConstV) and not isinstance(b.v, float):
             if isinstance(a, ConstV) and isinstance(b, ConstV) and t in (ast.Eq, ast.NotEq):
@@ -1702,7 +1779,9 @@ class Interp:
         rets = [(v, s) for (_, (v, s)) in ex.returns]
         for rs, _st in ex.raises:
             if isinstance(rs, ast.Raise):
-                self.raise_log.append((f.qual, unparse(rs.exc)[:80] if rs.exc is not None else "re-raise"))
+                key = (f.qual, unparse(rs.exc)[:80] if rs.exc is not None else "re-raise")
+                self.raise_log.append(key)
+                self.raise_paths.setdefault(key, tuple(self._inline_names))
         if depth == 0 and self.on_return is not None:
             for r, (v, s) in ex.returns:
                 self.on_return(r, v, s, f)
@@ -1957,12 +2036,14 @@ class Interp:
             for fk, fv in so.fields.items():
                 init[f"{sn}.{fk}"] = fv
         self._inline_stack = [id(f)]
+        self._inline_names = [f.qual]
         try:
             return self.run_function(f, State(init), 0)
         except Budget:
             return [], []
         finally:
             self._inline_stack = []
+            self._inline_names = []
             self.entry_label = ""
 
 
